@@ -897,12 +897,20 @@ def extract(repo):
                             kinds.append('safe')
                         else:
                             kinds.append('esc')
-                    tagsites.append(dict(file=rel, line=node.lineno, func=fq, name=node.args[0].value, dyn='literal', extras=''.join(k[0] for k in kinds)))
+                    argkeys = []
+                    for a in node.args[1:]:
+                        if isinstance(a, ast.Call) and m.text(a.func) in ('tags.safestr', 'tags.safe_format') and a.args:
+                            argkeys.append(f"{rel}:{fq}:{m.text(a.func).split('.')[-1]}({m.text(a.args[0])})")
+                        else:
+                            argkeys.append(None if not isinstance(a, ast.Starred) else '*')
+                    tagsites.append(dict(file=rel, line=node.lineno, end_line=node.end_lineno, func=fq, name=node.args[0].value, dyn='literal',
+                                         extras=''.join(k[0] for k in kinds), argkeys=argkeys))
                 else:
                     fn = enclosing(node, ast.FunctionDef)
                     fwd = (fn is not None and fn.name == 'tag' and m.text(node) == 'self.parent.tag(tagname, *extra)'
                            and [a.arg for a in fn.args.args] == ['self', 'tagname'] and fn.args.vararg is not None and fn.args.vararg.arg == 'extra')
-                    tagsites.append(dict(file=rel, line=node.lineno, func=fq, name=m.text(node.args[0]) if node.args else '', dyn='forwarder' if fwd else 'dynamic', extras='*'))
+                    tagsites.append(dict(file=rel, line=node.lineno, end_line=node.end_lineno, func=fq, name=m.text(node.args[0]) if node.args else '',
+                                         dyn='forwarder' if fwd else 'dynamic', extras='*', argkeys=['*']))
             if isinstance(node, ast.Call) and m.text(node.func) in ('print', 'sys.stdout.write', 'sys.stdout.buffer.write'):
                 prints.append(dict(file=rel, line=node.lineno, func=qualname(node), call=m.text(node.func)))
     safes.sort(key=lambda x: (x['file'], x['line'], x.get('col', 0)))
@@ -979,7 +987,8 @@ def main():
             sys.exit(3)
         if '--json' in sys.argv:
             import json
-            json.dump({'safestr_sites': [dict(x, prov=x['prov'].kind, rules=sorted(x['prov'].rules)) for x in safes],
+            json.dump({'safestr_sites': [dict(x, prov=x['prov'].kind, rules=sorted(x['prov'].rules),
+                                              key=f"{x['file']}:{x['func']}:{x['kind']}({x['expr']})") for x in safes],
                        'tag_sites': tagsites, 'print_sites': prints, 'probes': probes}, sys.stdout, indent=1)
             print()
             return
